@@ -2980,6 +2980,104 @@ func c08r28(c *Ctx, r *Report) {
 	r.floor("resets of the coordinator's kept query in the event loop", n, 2)
 }
 
+// c08r29: at the end of an iteration Terminal.Loop posts a search request when `changed` is set, and a changed
+// query sets it through the comparison of the input with its value at the start of the iteration. Every action
+// list run in the iteration — also the ones bound to events (jump, jump-cancel, backward-eof) — has to be
+// followed by that comparison before the flag is read (D104: the comparison was made once, in the middle of the
+// key branch: `jump:change-query(foo)` or `backward-eof:change-query(foo)` changed the prompt and left the list of
+// the old query on display).
+func c08r29(c *Ctx, r *Report) {
+	l := c.L
+	r.rule("C08-R29", "A (must-pass-through: the query comparison follows every action list)", "P1",
+		"in Terminal.Loop, every path from a call of doActions / doAction to the read of `changed` that decides whether a search request is posted passes an update of queryChanged computed from the comparison of the input with previousInput",
+		"a query changed by an action bound to the jump, jump-cancel or backward-eof event is shown in the prompt but not searched: the list is that of the old query")
+	loop := l.Fn("fzf", "(*Terminal).Loop")
+	if loop == nil {
+		r.unest("anchors", token.NoPos, nil, "anchor Terminal.Loop", "cannot resolve")
+		return
+	}
+	cellNamed := func(v ssa.Value, name string) bool {
+		u, ok := v.(*ssa.UnOp)
+		if !ok || u.Op != token.MUL {
+			return false
+		}
+		if _, isAlloc := u.X.(*ssa.Alloc); !isAlloc {
+			return false
+		}
+		return u.X.(*ssa.Alloc).Comment == name
+	}
+	// the comparison
+	isCmp := func(in ssa.Instruction) bool {
+		bo, ok := in.(*ssa.BinOp)
+		if !ok || (bo.Op != token.NEQ && bo.Op != token.EQL) {
+			return false
+		}
+		// string(previousInput) != string(t.input): previousInput is the copy of the input taken at the start
+		// of the iteration (a call of copySlice), the other side a load of Terminal.input
+		copySide, inputSide := false, false
+		for _, side := range []ssa.Value{bo.X, bo.Y} {
+			cv, ok := side.(*ssa.Convert)
+			if !ok {
+				continue
+			}
+			if call, ok := cv.X.(*ssa.Call); ok && call.Common().StaticCallee() != nil && call.Common().StaticCallee().Name() == "copySlice" {
+				copySide = true
+			}
+			if f, _ := loadedField(cv.X); f != nil && f.Name() == "input" {
+				inputSide = true
+			}
+		}
+		return copySide && inputSide
+	}
+	// the update `queryChanged = queryChanged || … previousInput != input`: a store into the flag whose value is
+	// computed from the comparison (the comparison itself is skipped by the short circuit when the flag is set)
+	isUpdate := func(in ssa.Instruction) bool {
+		st, ok := in.(*ssa.Store)
+		if !ok {
+			return false
+		}
+		al, ok := st.Addr.(*ssa.Alloc)
+		if !ok || al.Comment != "queryChanged" {
+			return false
+		}
+		for v := range backwardSlice(st.Val, nil, nil) {
+			if vi, ok := v.(ssa.Instruction); ok && isCmp(vi) {
+				return true
+			}
+		}
+		return false
+	}
+	// the deciding read: the last load of `changed` in the function (the one that feeds `reload`)
+	var reads []ssa.Instruction
+	eachInstr(loop, func(in ssa.Instruction) {
+		if u, ok := in.(*ssa.UnOp); ok && cellNamed(u, "changed") {
+			reads = append(reads, u)
+		}
+	})
+	if len(reads) == 0 {
+		r.unest(relName(loop)+":read of changed", loop.Pos(), loop, "the read of `changed` at the end of the iteration", "not found")
+		return
+	}
+	sort.Slice(reads, func(i, j int) bool { return reads[i].Pos() < reads[j].Pos() })
+	final := reads[len(reads)-1]
+	n := 0
+	eachInstr(loop, func(in ssa.Instruction) {
+		call, ok := in.(*ssa.Call)
+		if !ok {
+			return
+		}
+		if !cellNamed(call.Call.Value, "doActions") && !cellNamed(call.Call.Value, "doAction") {
+			return
+		}
+		n++
+		hit := pathAvoiding(call, func(x ssa.Instruction) bool { return x == final }, isUpdate,
+			func(from, to *ssa.BasicBlock) bool { return !to.Dominates(from) })
+		r.check(hit == nil, fmt.Sprintf("%s:action list #%d is followed by the query comparison", relName(loop), n), call.Pos(), loop,
+			"input compared with previousInput before `changed` is read", "a path from this action list reaches the decision about the search request without comparing the input with previousInput")
+	})
+	r.floor("action lists dispatched by Terminal.Loop", n, 5)
+}
+
 func round10(c *Ctx, r *Report, prop string) {
 	switch prop {
 	case "C01":
@@ -3022,6 +3120,7 @@ func round10(c *Ctx, r *Report, prop string) {
 		c08r26(c, r)
 		c08r27(c, r)
 		c08r28(c, r)
+		c08r29(c, r)
 		c13r17(c, r) // the events that announce the complete list act on the complete list
 	case "C14":
 		c14r21(c, r)
